@@ -735,6 +735,40 @@ fn compound_grid(report: &mut Report) -> u64 {
                             });
                         }
                     }
+                    // the right-hand side is evaluated exactly once, before the content is read: a
+                    // value that counts its evaluations, and one that assigns the cell itself first
+                    if let Ok(w) = &want {
+                        let first = w.split(" ; ").next().unwrap_or("").to_string();
+                        let self_want = run(&format!("f := (a: {cell}, b: {cell}) -> any {{ return a {op} b }}; x := f({v}, {v}); (x, x)"));
+                        let effectful = [
+                            (
+                                "counting-value",
+                                format!("n := mut 0; c := mut {cell} {u}; b := (x: {cell}) -> {cell_r} {{ n += 1; return x }}; r := (c {op}= b({v})); (r, *c, *n)", cell_r = if cell.contains('|') && !cell.starts_with('[') { format!("({cell})") } else { cell.to_string() }),
+                                Ok(format!("{first} ; {first} ; 1 :: int")),
+                            ),
+                            (
+                                "value-assigns-the-cell-first",
+                                format!("c := mut {cell} {u}; s := (x: {cell}) -> {cell_r} {{ c = x; return x }}; r := (c {op}= s({v})); (r, *c)", cell_r = if cell.contains('|') && !cell.starts_with('[') { format!("({cell})") } else { cell.to_string() }),
+                                self_want.clone(),
+                            ),
+                        ];
+                        for (form, text, want2) in effectful {
+                            if want2.is_err() {
+                                continue;
+                            }
+                            let got = run(&text);
+                            if matches!(&got, Err(e) if e == "exhausted") {
+                                continue;
+                            }
+                            n += 1;
+                            if got != want2 {
+                                report.violation(Violation {
+                                    sig: format!("C13|compound-store|{form}|cell={}|op={op}=|old={u}|operand={v}", cell.replace('|', "/")),
+                                    detail: json!({"kind": "program", "stdlib": true, "text": text, "expected": format!("{want2:?}"), "observed": format!("{got:?}")}),
+                                });
+                            }
+                        }
+                    }
                     // a failing update leaves the content as it was
                     if want.is_err() {
                         let text = format!("f := (c: mut {cell}, v: {cell}) -> any {{ return (c {op}= v) }}; c := mut {cell} {u}; g := () -> any {{ return *c }}; (g, f, c)");
